@@ -82,4 +82,88 @@ example : inv (setLocatorByUID s2 1 1 (-1) false) = true := by decide
 /-! ### non-vacuity -/
 example : (step s2 (.delUid 0)).map inv = some true := by decide
 
+/-! ### value assignments: untouched cells keep their values -/
+
+/-- the value of one cell (undefined outside the table) -/
+def cell (s : State) (c i : Nat) : Val := ((s.cols.getD c []).getD i none)
+
+/-- `setArrayBySample` writes exactly one row: cell `(c, i)` afterwards holds `vals[c]` on the addressed
+sample and its previous value everywhere else — for every table, sample index and list of values -/
+theorem setRow_frame (s s' : State) (iech : Int) (vals : List Val) (h : Inv s)
+    (hs : step s (.setRow iech vals) = some s') (c i : Nat) (hc : c < ncol s) (hi : i < s.nech) :
+    cell s' c i =
+      if vals.length = ncol s ∧ 0 ≤ iech ∧ iech < (s.nech : Int) ∧ i = iech.toNat then vals.getD c none
+      else cell s c i := by
+  have hcl : c < s.cols.length := by rw [h.colsLen]; exact hc
+  have hrect : (s.cols[c]).length = s.nech := h.colsRect _ (List.getElem_mem hcl)
+  simp only [step] at hs
+  split at hs <;> injection hs with hs <;> subst hs
+  · rename_i hg
+    have : ¬ (vals.length = ncol s ∧ 0 ≤ iech ∧ iech < (s.nech : Int) ∧ i = iech.toNat) := by
+      intro hh
+      simp [hh.1, hh.2.1, hh.2.2.1] at hg
+    rw [if_neg this]
+  · rename_i hg
+    have hl : vals.length = ncol s := by
+      by_contra hne; exact hg (by simp [hne])
+    have hr : 0 ≤ iech ∧ iech < (s.nech : Int) := by
+      by_contra hne
+      apply hg
+      simp only [Bool.or_eq_true, Bool.not_eq_true', Bool.and_eq_false_iff, decide_eq_false_iff_not]
+      right
+      by_cases h0 : 0 ≤ iech
+      · right; exact fun hlt => hne ⟨h0, hlt⟩
+      · left; exact h0
+    have hcv : c < vals.length := by rw [hl]; exact hc
+    have hz : (s.cols.zip vals)[c]? = some (s.cols[c], vals[c]) := by
+      rw [List.zip_eq_zipWith, List.getElem?_zipWith, List.getElem?_eq_getElem hcl, List.getElem?_eq_getElem hcv]
+    simp only [cell, List.getD_eq_getElem?_getD, List.getElem?_map, hz, Option.map_some, Option.getD_some,
+      List.getElem?_eq_getElem hcl, List.getElem?_eq_getElem hcv]
+    by_cases hie : i = iech.toNat
+    · rw [if_pos ⟨hl, hr.1, hr.2, hie⟩]
+      subst hie
+      simp [hrect, hi]
+    · rw [if_neg (fun hh => hie hh.2.2.2)]
+      simp [Ne.symm hie]
+
+/-- `setArray` writes exactly one cell: the one of the column holding that uid, at that sample; refused
+arguments (unknown uid, sample out of range) change nothing -/
+theorem setArray_frame (s s' : State) (iech u : Int) (val : Val) (h : Inv s)
+    (hs : step s (.setArray iech u val) = some s') (c i : Nat) (hc : c < ncol s) (hi : i < s.nech) :
+    cell s' c i =
+      if 0 ≤ iech ∧ iech < (s.nech : Int) ∧ colOfUid s u = (c : Int) ∧ i = iech.toNat then val
+      else cell s c i := by
+  have hcl : c < s.cols.length := by rw [h.colsLen]; exact hc
+  have hrect : (s.cols[c]).length = s.nech := h.colsRect _ (List.getElem_mem hcl)
+  simp only [step] at hs
+  split at hs <;> injection hs with hs <;> subst hs
+  · rename_i hg
+    have : ¬ (0 ≤ iech ∧ iech < (s.nech : Int) ∧ colOfUid s u = (c : Int) ∧ i = iech.toNat) := by
+      intro hh
+      simp [hh.1, hh.2.1, hh.2.2.1] at hg
+      omega
+    rw [if_neg this]
+  · rename_i hg
+    simp only [Bool.or_eq_true, Bool.not_eq_true', Bool.and_eq_false_iff, decide_eq_false_iff_not,
+      decide_eq_true_eq, not_or, not_not, Int.not_lt] at hg
+    have hr : 0 ≤ iech ∧ iech < (s.nech : Int) := ⟨hg.1.1, by omega⟩
+    simp only [cell, List.getD_eq_getElem?_getD, List.getElem?_modify, List.getElem?_eq_getElem hcl,
+      Option.getD_some]
+    by_cases hcu : colOfUid s u = (c : Int)
+    · have hcc : (colOfUid s u).toNat = c := by omega
+      by_cases hie : i = iech.toNat
+      · rw [if_pos ⟨hr.1, hr.2, hcu, hie⟩]
+        subst hie
+        simp [hcc, hrect, hi]
+      · rw [if_neg (fun hh => hie hh.2.2.2)]
+        simp [hcc, Ne.symm hie]
+    · rw [if_neg (fun hh => hcu hh.2.2.1)]
+      have hcc : (colOfUid s u).toNat ≠ c := by omega
+      simp [hcc]
+
+/-- non-vacuity: a 2×2 table, one row written -/
+example : (step { grid := false, nech := 2, nextUid := 2, uids := [0, 1], names := ["a", "b"],
+                  cols := [[some 1, some 2], [some 3, some 4]], loc := List.replicate NLOC [] }
+              (.setRow 1 [some 7, none])).map (·.cols) = some [[some 1, some 7], [some 3, none]] := by decide
+
 end GstProofs.C07
